@@ -16,7 +16,12 @@ EXPLANATION = (
     "Timer.expired (with Timer.remaining inlined) is evaluated symbolically over the 8 "
     "combinations of (timeout is None, never started, not stopped) into a linear form over "
     "{timeout, start, end, now} and compared with the reference 'timeout - (end|now - start) < 0'; "
-    "start/stop/restart are compared with the reference field updates."
+    "start/stop/restart are compared with the reference field updates. (state-machine) the whole "
+    "class is also interpreted abstractly - fields hold None or a linear form over symbolic clock "
+    "reads and timeout values - over every sequence of up to three operations (start, stop, restart, "
+    "timeout = None, timeout = value) from both initial states, and `expired` must equal the reference "
+    "predicate after each: this covers state added to the class (caches, extra clocks) that the "
+    "per-method comparison cannot see."
 )
 
 MONO = {"monotonic", "monotonic_ns", "perf_counter", "perf_counter_ns"}
@@ -164,92 +169,113 @@ def run(repo: Repo, rep: Report, tier: str) -> None:
     timer_reads = [c for c in ast.walk(mod.tree) if isinstance(c, ast.Call) and clock_kind(c, mod)]
     rep.floor("clock reads in timer.py", len(timer_reads), 3)
 
-    # ---- expired semantics -------------------------------------------------
-    exp = ci.getters.get("expired")
-    rem = ci.getters.get("remaining")
-    rep.need(exp is not None and rem is not None, "Timer.expired / Timer.remaining vanished")
-    exp_paths = [p for p in path_summaries(exp, body=body_nodoc(exp), may_raise=lambda n: False) if not p.raised]
-    rem_paths = [p for p in path_summaries(rem, body=body_nodoc(rem), may_raise=lambda n: False) if not p.raised]
+    # ---- state machine -------------------------------------------------------
+    from ..timer_model import explore
+    rep.rule("state-machine", "after every sequence of <= 3 operations from both initial states, expired equals the reference predicate (abstract interpretation over linear forms)")
+    checked, mism, unknown = explore(ci, clock_kind, mod, depth=3)
+    rep.counters["operation sequences explored"] = checked
+    for seq, got, want in mism[:6]:
+        rep.fail("state-machine", "timer.Timer", seq, f"after this sequence expired is `{got}` but the property requires `{want}` (more than the timeout elapsed since the last start; a stopped timer reports the state it had when stopped)", mod=mod, node=ci.node)
+    if not mism and not unknown:
+        rep.ok("state-machine", f"timer.Timer :: {checked} operation sequences", "expired == reference on all")
+    sm_complete = not unknown
+    for seq, why in unknown[:4]:
+        rep.defer(f"Timer cannot be interpreted on `{seq}`: {why}")
+    if sm_complete:
+        rep.floor("operation sequences explored", checked, 300)
 
-    def remaining_for(assign):
-        c = [p for p in rem_paths if consistent(p.conds, assign)]
-        rep.need(len(c) == 1, f"Timer.remaining: {len(c)} paths for {assign}")
-        return c[0].ret
+    try:
+        # ---- expired semantics -------------------------------------------------
+        exp = ci.getters.get("expired")
+        rem = ci.getters.get("remaining")
+        rep.need(exp is not None and rem is not None, "Timer.expired / Timer.remaining vanished")
+        exp_paths = [p for p in path_summaries(exp, body=body_nodoc(exp), may_raise=lambda n: False) if not p.raised]
+        rem_paths = [p for p in path_summaries(rem, body=body_nodoc(rem), may_raise=lambda n: False) if not p.raised]
 
-    def as_form(expr, assign):
-        """-> ('const', bool) or ('lt0', Lin) meaning Lin < 0, or ('le0', Lin)"""
-        if isinstance(expr, ast.Constant) and isinstance(expr.value, bool):
-            return ("const", expr.value)
-        if isinstance(expr, ast.Compare) and len(expr.ops) == 1:
-            def side(e):
-                if norm(e) == "self.remaining":
-                    return linear(remaining_for(assign), mod, ATOMS)
-                return linear(e, mod, ATOMS)
-            l, r = side(expr.left), side(expr.comparators[0])
-            op = expr.ops[0]
-            if isinstance(op, ast.Lt):
-                return ("lt0", l.add(r, -1))
-            if isinstance(op, ast.Gt):
-                return ("lt0", r.add(l, -1))
-            if isinstance(op, ast.LtE):
-                return ("le0", l.add(r, -1))
-            if isinstance(op, ast.GtE):
-                return ("le0", r.add(l, -1))
-        raise AnalysisError(f"Timer.expired: return expression not recognised: {norm(expr)}")
+        def remaining_for(assign):
+            c = [p for p in rem_paths if consistent(p.conds, assign)]
+            rep.need(len(c) == 1, f"Timer.remaining: {len(c)} paths for {assign}")
+            return c[0].ret
 
-    for tn, sn, en in itertools.product([True, False], repeat=3):
-        assign = {"tn": tn, "sn": sn, "en": en}
-        c = [p for p in exp_paths if consistent(p.conds, assign)]
-        rep.need(len(c) == 1, f"Timer.expired: {len(c)} paths for {assign}")
-        got = as_form(c[0].ret, assign)
-        if tn or sn:
-            want = ("const", False)
-        elif en:
-            want = ("lt0", Lin({"timeout": 1, "now": -1, "start": 1}))
+        def as_form(expr, assign):
+            """-> ('const', bool) or ('lt0', Lin) meaning Lin < 0, or ('le0', Lin)"""
+            if isinstance(expr, ast.Constant) and isinstance(expr.value, bool):
+                return ("const", expr.value)
+            if isinstance(expr, ast.Compare) and len(expr.ops) == 1:
+                def side(e):
+                    if norm(e) == "self.remaining":
+                        return linear(remaining_for(assign), mod, ATOMS)
+                    return linear(e, mod, ATOMS)
+                l, r = side(expr.left), side(expr.comparators[0])
+                op = expr.ops[0]
+                if isinstance(op, ast.Lt):
+                    return ("lt0", l.add(r, -1))
+                if isinstance(op, ast.Gt):
+                    return ("lt0", r.add(l, -1))
+                if isinstance(op, ast.LtE):
+                    return ("le0", l.add(r, -1))
+                if isinstance(op, ast.GtE):
+                    return ("le0", r.add(l, -1))
+            raise AnalysisError(f"Timer.expired: return expression not recognised: {norm(expr)}")
+
+        for tn, sn, en in itertools.product([True, False], repeat=3):
+            assign = {"tn": tn, "sn": sn, "en": en}
+            c = [p for p in exp_paths if consistent(p.conds, assign)]
+            rep.need(len(c) == 1, f"Timer.expired: {len(c)} paths for {assign}")
+            got = as_form(c[0].ret, assign)
+            if tn or sn:
+                want = ("const", False)
+            elif en:
+                want = ("lt0", Lin({"timeout": 1, "now": -1, "start": 1}))
+            else:
+                want = ("lt0", Lin({"timeout": 1, "end": -1, "start": 1}))
+            inst = f"timeout None={tn}, never started={sn}, not stopped={en}"
+            rep.check(got == want, "expired-semantics", "timer.Timer.expired", f"[{inst}] -> {got[0]} {dict(got[1]) if isinstance(got[1], dict) else got[1]}", f"expected {want[0]} {dict(want[1]) if isinstance(want[1], dict) else want[1]} for case {inst} (strictly more than the timeout elapsed; stopped timers report their stopped state)", mod=mod, node=exp)
+        rep.sample({"case": "running", "expired_iff": "timeout - (now - start) < 0"})
+        rep.sample({"case": "stopped", "expired_iff": "timeout - (end - start) < 0"})
+
+        # ---- field updates -----------------------------------------------------
+        def writes(fn):
+            out = {}
+            for ps in path_summaries(fn, body=body_nodoc(fn), may_raise=lambda n: False):
+                w = {}
+                for st in ps.stmts:
+                    if isinstance(st, ast.Assign) and norm(st.targets[0]) in ATOMS:
+                        v = st.value
+                        if isinstance(v, ast.Call) and clock_kind(v, mod):
+                            w[ATOMS[norm(st.targets[0])]] = "now"
+                        else:
+                            w[ATOMS[norm(st.targets[0])]] = norm(v)
+                    elif isinstance(st, ast.Expr) and isinstance(st.value, ast.Call) and norm(st.value) in ("self.start()",):
+                        w.update(writes(ci.methods["start"])[0])
+                out.setdefault(tuple(sorted(w.items())), None)
+            return [dict(k) for k in out]
+
+        for meth, want in (("start", {"start": "now", "end": "None"}), ("stop", {"end": "now"}), ("restart", {"start": "now", "end": "None"})):
+            fn = ci.methods.get(meth)
+            rep.need(fn is not None, f"Timer.{meth} vanished")
+            ws = writes(fn)
+            rep.check(ws == [want], "field-updates", f"timer.Timer.{meth}", f"writes {ws}", f"{meth}() must perform exactly {want} on every path", mod=mod, node=fn)
+        setter = ci.setters.get("timeout")
+        rep.need(setter is not None, "Timer.timeout setter vanished")
+        arg = setter.args.args[1].arg
+        ws = [s for s in walk_no_nested(setter) if isinstance(s, ast.Assign)]
+        rep.check(len(ws) == 1 and norm(ws[0].targets[0]) == "self._timeout" and norm(ws[0].value) == arg, "field-updates", "timer.Timer.timeout:setter", "self._timeout = " + arg, "timeout setter must store its argument unchanged", mod=mod, node=setter)
+        getter = ci.getters.get("timeout")
+        rets = [s for s in walk_no_nested(getter) if isinstance(s, ast.Return)]
+        rep.check(len(rets) == 1 and norm(rets[0].value) == "self._timeout", "field-updates", "timer.Timer.timeout", "return self._timeout", "timeout getter must return the stored value", mod=mod, node=getter)
+        init = ci.methods["__init__"]
+        iw = {norm(s.target if isinstance(s, ast.AnnAssign) else s.targets[0]): norm(s.value) for s in walk_no_nested(init) if isinstance(s, (ast.Assign, ast.AnnAssign)) and s.value is not None}
+        rep.check(iw.get("self._start_time") == "None" and iw.get("self._end_time") == "None", "field-updates", "timer.Timer.__init__", f"{iw}", "a new timer must be not-started and not-stopped", mod=mod, node=init)
+        # nobody outside Timer writes the private fields
+        for m in repo.modules.values():
+            for n in ast.walk(m.tree):
+                if isinstance(n, ast.Attribute) and isinstance(n.ctx, ast.Store) and n.attr in ("_start_time", "_end_time"):
+                    cls = enclosing(n, (ast.ClassDef,))
+                    rep.check(m is mod and cls is not None and cls.name == "Timer", "field-updates", f"{m.name}.{qualname(n)}", n, "timer field written outside Timer", mod=m, node=n)
+    except AnalysisError as exc:
+        if sm_complete:
+            rep.extra["per_method_rules_not_applicable"] = f"{exc} - the class no longer has the five-straight-line-methods shape; decided by the state-machine rule alone"
         else:
-            want = ("lt0", Lin({"timeout": 1, "end": -1, "start": 1}))
-        inst = f"timeout None={tn}, never started={sn}, not stopped={en}"
-        rep.check(got == want, "expired-semantics", "timer.Timer.expired", f"[{inst}] -> {got[0]} {dict(got[1]) if isinstance(got[1], dict) else got[1]}", f"expected {want[0]} {dict(want[1]) if isinstance(want[1], dict) else want[1]} for case {inst} (strictly more than the timeout elapsed; stopped timers report their stopped state)", mod=mod, node=exp)
-    rep.sample({"case": "running", "expired_iff": "timeout - (now - start) < 0"})
-    rep.sample({"case": "stopped", "expired_iff": "timeout - (end - start) < 0"})
-
-    # ---- field updates -----------------------------------------------------
-    def writes(fn):
-        out = {}
-        for ps in path_summaries(fn, body=body_nodoc(fn), may_raise=lambda n: False):
-            w = {}
-            for st in ps.stmts:
-                if isinstance(st, ast.Assign) and norm(st.targets[0]) in ATOMS:
-                    v = st.value
-                    if isinstance(v, ast.Call) and clock_kind(v, mod):
-                        w[ATOMS[norm(st.targets[0])]] = "now"
-                    else:
-                        w[ATOMS[norm(st.targets[0])]] = norm(v)
-                elif isinstance(st, ast.Expr) and isinstance(st.value, ast.Call) and norm(st.value) in ("self.start()",):
-                    w.update(writes(ci.methods["start"])[0])
-            out.setdefault(tuple(sorted(w.items())), None)
-        return [dict(k) for k in out]
-
-    for meth, want in (("start", {"start": "now", "end": "None"}), ("stop", {"end": "now"}), ("restart", {"start": "now", "end": "None"})):
-        fn = ci.methods.get(meth)
-        rep.need(fn is not None, f"Timer.{meth} vanished")
-        ws = writes(fn)
-        rep.check(ws == [want], "field-updates", f"timer.Timer.{meth}", f"writes {ws}", f"{meth}() must perform exactly {want} on every path", mod=mod, node=fn)
-    setter = ci.setters.get("timeout")
-    rep.need(setter is not None, "Timer.timeout setter vanished")
-    arg = setter.args.args[1].arg
-    ws = [s for s in walk_no_nested(setter) if isinstance(s, ast.Assign)]
-    rep.check(len(ws) == 1 and norm(ws[0].targets[0]) == "self._timeout" and norm(ws[0].value) == arg, "field-updates", "timer.Timer.timeout:setter", "self._timeout = " + arg, "timeout setter must store its argument unchanged", mod=mod, node=setter)
-    getter = ci.getters.get("timeout")
-    rets = [s for s in walk_no_nested(getter) if isinstance(s, ast.Return)]
-    rep.check(len(rets) == 1 and norm(rets[0].value) == "self._timeout", "field-updates", "timer.Timer.timeout", "return self._timeout", "timeout getter must return the stored value", mod=mod, node=getter)
-    init = ci.methods["__init__"]
-    iw = {norm(s.target if isinstance(s, ast.AnnAssign) else s.targets[0]): norm(s.value) for s in walk_no_nested(init) if isinstance(s, (ast.Assign, ast.AnnAssign)) and s.value is not None}
-    rep.check(iw.get("self._start_time") == "None" and iw.get("self._end_time") == "None", "field-updates", "timer.Timer.__init__", f"{iw}", "a new timer must be not-started and not-stopped", mod=mod, node=init)
-    # nobody outside Timer writes the private fields
-    for m in repo.modules.values():
-        for n in ast.walk(m.tree):
-            if isinstance(n, ast.Attribute) and isinstance(n.ctx, ast.Store) and n.attr in ("_start_time", "_end_time"):
-                cls = enclosing(n, (ast.ClassDef,))
-                rep.check(m is mod and cls is not None and cls.name == "Timer", "field-updates", f"{m.name}.{qualname(n)}", n, "timer field written outside Timer", mod=m, node=n)
+            rep.defer(str(exc))
     rep.extra["exhaustive"] = True
